@@ -6,4 +6,5 @@ CONSTANTS
   StopFlushes = TRUE
   FullEquals = TRUE
   GenSet = "h1"
+  Seed = 1
 CHECK_DEADLOCK FALSE
